@@ -27,6 +27,7 @@ import (
 	"sort"
 	"strings"
 	"sync/atomic"
+	"testing/synctest"
 	"time"
 
 	"github.com/99designs/gqlgen/graphql"
@@ -192,6 +193,9 @@ func deepCopy(v any) any {
 	return out
 }
 
+type holdKey struct{}
+type otherKey struct{}
+
 type outcome struct {
 	Status int
 	Header http.Header
@@ -214,6 +218,11 @@ func Run(rc *core.RunCtx) {
 	var gotUploads []string
 	u.OnCall = func(ctx context.Context, kind, path string) { resolverCalls.Add(1) }
 	upl := func(ctx context.Context, args []reflect.Value) (any, error) {
+		if ctx.Value(holdKey{}) != nil {
+			// the judged request of a concurrent pair: its uploads have been stored, now another
+			// request is served completely before this resolver reads them
+			w.Park("upload", "held", nil)
+		}
 		var ups []graphql.Upload
 		for _, a := range args[1:] {
 			collectUploads(a, &ups)
@@ -234,7 +243,9 @@ func Run(rc *core.RunCtx) {
 			}
 			descs = append(descs, describe(up.Filename, up.ContentType, b))
 		}
-		gotUploads = append(gotUploads, descs...)
+		if ctx.Value(otherKey{}) == nil {
+			gotUploads = append(gotUploads, descs...)
+		}
 		return descs, nil
 	}
 	u.Custom = map[string]func(ctx context.Context, args []reflect.Value) (any, error){
@@ -265,6 +276,7 @@ func Run(rc *core.RunCtx) {
 	kinds := []string{"post", "get", "graphql", "urlencoded", "multipart", "sse", "mmixed"}
 	kind := kinds[t.Choose(len(kinds), "transport")]
 	mf := transport.MultipartForm{}
+	var otherBody []byte // body of a second upload request served while the first is held
 	var maxUpload int64
 	var base baseReq
 	if kind == "multipart" {
@@ -475,6 +487,36 @@ func Run(rc *core.RunCtx) {
 		mw.Close()
 		body = mbuf.Bytes()
 		hdr.Set("Content-Type", mw.FormDataContentType())
+		if mpf == "spill" && (fault == "truncate-eof" || fault == "truncate-err" || fault == "rechunk" || fault == "content-length") && t.Bool(2, 3, "spill-unfaulted") {
+			fault = "none" // (these stream faults are applied further down: not this time)
+		}
+		if mpf == "spill" && fault == "none" && t.Bool(2, 3, "concurrent-upload") {
+			// a second client uploads files with the SAME names and other contents while the
+			// first request's resolver has not read its uploads yet
+			var mbuf2 bytes.Buffer
+			mw2 := multipart.NewWriter(&mbuf2)
+			mw2.SetBoundary(mw.Boundary())
+			for _, p := range parts {
+				if p.f == nil {
+					fw, _ := mw2.CreateFormField(p.name)
+					fw.Write(p.data)
+					continue
+				}
+				h := textproto.MIMEHeader{}
+				h.Set("Content-Disposition", fmt.Sprintf(`form-data; name="%s"; filename="%s"`, p.name, p.f.Name))
+				if p.f.CType != "" {
+					h.Set("Content-Type", p.f.CType)
+				}
+				fw, _ := mw2.CreatePart(h)
+				other := make([]byte, len(p.f.Content))
+				for i, c := range p.f.Content {
+					other[i] = c ^ 0x20
+				}
+				fw.Write(other)
+			}
+			mw2.Close()
+			otherBody = mbuf2.Bytes()
+		}
 		switch mpf {
 		case "over-limit":
 			maxUpload = int64(len(body)) - int64(1+t.Choose(200, "over-by"))
@@ -586,7 +628,27 @@ func Run(rc *core.RunCtx) {
 		faultDesc += " " + pre
 	}
 	rec := httptest.NewRecorder()
-	srv.ServeHTTP(rec, r)
+	if otherBody != nil {
+		doneA := make(chan struct{})
+		go func() {
+			defer close(doneA)
+			srv.ServeHTTP(rec, r.WithContext(context.WithValue(r.Context(), holdKey{}, true)))
+		}()
+		synctest.Wait()
+		rB := httptest.NewRequest("POST", "/query", bytes.NewReader(otherBody))
+		for k, vs := range hdr {
+			rB.Header[k] = vs
+		}
+		srv.ServeHTTP(httptest.NewRecorder(), rB.WithContext(context.WithValue(rB.Context(), otherKey{}, true)))
+		for _, it := range w.Parked() {
+			w.Release(it, nil)
+		}
+		<-doneA
+		faultDesc += " (another upload with the same file names served meanwhile)"
+		w.Count("concurrent_uploads")
+	} else {
+		srv.ServeHTTP(rec, r)
+	}
 	// the same bytes again (a client retrying): the second answer is the one judged below, the
 	// recover hook is watched over both
 	if (fault == "none" || fault == "corrupt" || fault == "json-prefix" || fault == "invalid-doc" || fault == "opname") && kind != "multipart" && t.Bool(1, 3, "repeat") {
